@@ -239,6 +239,7 @@ def run(ctx, method, sym=(), conc=None, elig=None, record_push=False,
     out.par, out.sv = par, sv
     ge, cells = make_elig(ctx, elig)
     out.cells = cells
+    out.elig_default = elig is None
     try:
       data = M['data'].TBRMMData(ctx.df.copy(), 'sales', ge)
       if history == 'prior':
